@@ -223,6 +223,52 @@ def _dedup(vs, per_key=1):
     return out
 
 
+# ---- simulation with listener filters: the closing update reaches every strategy whatever its filters ----
+FILTERS = ({}, {"max_inplay_seconds": 4}, {"inplay": False}, {"inplay": True}, {"seconds_to_start": 5}, {"inplay": False, "seconds_to_start": 8}, {"inplay": True, "max_inplay_seconds": 2}, {"seconds_to_start": 5, "max_inplay_seconds": 4})
+
+
+def _filters_one(args):
+    """one market that turns in-play and closes well after every filter window has shut; strategies whose listeners
+    filter the OPEN updates (time to start, in-play, in-play window): each still gets the closing update once, the
+    market is closed, its orders (placed by the unfiltered strategy) are settled and reported cleared."""
+    fis, with_order = args
+    ticks = [[3000, L.EVENTS["Q"]], [3000, L.EVENTS["Q"]], [3000, L.EVENTS["IP"]], [3000, L.EVENTS["Q"]], [3000, L.EVENTS["Q"]], [3000, L.EVENTS["CL"]]]
+    kw = dict(max_order_exposure=None, max_selection_exposure=None, max_live_trade_count=5)
+    strategies = [dict(script={(0, 0): [L.P("XB")]} if with_order else {}, name="all", kw=dict(kw))]
+    for k, fi in enumerate(fis):
+        strategies.append(dict(script={}, name="f%d" % k, kw=dict(kw), listener_kwargs=dict(FILTERS[fi])))
+    w = simx.SimWorld([(simx.MarketSpec(book0=L.BOOK0, market_time_offset_s=10), ticks)], strategies).run()
+    out = []
+    counts = {"clause:C20.b": 0, "clause:C20.a": 0, "filtered_closures": 0}
+    case = dict(filters=[list(fis), with_order])
+    if w.run_exception is not None:
+        out.append(core.v("C20.b", ("sim", "filters", "exception", "-"), "run raised %r" % (w.run_exception,), case))
+        return dict(violations=out, counts=counts)
+    mid = w.markets_in[0][0].market_id
+    for idx, sd in enumerate(strategies):
+        counts["clause:C20.b"] += 1
+        counts["filtered_closures"] += 1
+        n = sum(1 for c in w.closed_calls if c == (idx, mid))
+        if n != 1:
+            out.append(core.v("C20.b", ("sim", "filters", "callback count", "-"), "strategy %s with listener filters %s: process_closed_market called %d times for the one closing update" % (sd["name"], sd.get("listener_kwargs", {}), n), case))
+    m = w.market(0)
+    counts["clause:C20.a"] += 1
+    if m is not None and not m.closed:
+        out.append(core.v("C20.d", ("sim", "filters", "closed flag", "-"), "market not marked closed after its closing update", case))
+    if with_order:
+        orders = list(w.all_orders())
+        if not orders or any(o.runner_status is None for o in orders):
+            out.append(core.v("C20.a", ("sim", "filters", "runner result", "-"), "orders without a runner result after the close: %s" % [(o.selection_id, o.runner_status) for o in orders], case))
+        cm = [e for e in w.recorder.events if type(e).__name__ == "ClearedMarketsEvent"]
+        co = [e for e in w.recorder.events if type(e).__name__ == "ClearedOrdersMetaEvent"]
+        # one historical stream per distinct set of listener filters: the file is replayed once per stream (the market
+        # re-opens with the second stream's first update and closes again), one report per replay
+        n_streams = len({json.dumps(sd.get("listener_kwargs", {}), sort_keys=True) for sd in strategies})
+        if len(cm) != n_streams or len(co) != n_streams:
+            out.append(core.v("C20.c", ("sim", "filters", "cleared count", "-"), "%d cleared-orders and %d cleared-market reports for %d replay(s) of the closure" % (len(co), len(cm), n_streams), case))
+    return dict(violations=_dedup(out), counts=counts)
+
+
 # ---- live mode (E2): closure through the real queue, removal only after an hour, recorder mode ----
 LIVE_ALPHA = (("open", 0), ("close", 0), ("open", 1), ("close", 1), ("tick", 59), ("tick", 61), ("poll",), ("close", 2))  # market 2 is never seen open
 
@@ -233,10 +279,31 @@ def _live_one(seq):
 
     mids = ["1.100000001", "1.100000002", "1.100000003"]
     w = livex.LiveWorld([], strategies=("S0", "S1", "S2", "S3", "S4"), markets=mids[:2])
+    # ("adopt", 1) first: the framework starts with a bet of its own resting in market 1 - the order stream creates
+    # that market before its first book arrives (a restart with an open position); its sibling arrives by book
+    adopt = bool(seq) and seq[0][0] == "adopt"
+    if adopt:
+        w.late_books = True
     w.start()
+    if adopt:
+        from flumine.order.trade import Trade
+        from flumine.order.ordertype import LimitOrder
+
+        o0 = Trade(mids[1], 1, 0, w.strategies[0]).create_order("BACK", LimitOrder(2.0, 2.0))
+        bet0 = w.exchange.new_bet(mids[1], o0.create_place_instruction(), "verif")
+        w.exchange.publish(mids[1], [bet0])
+        while w.exchange.snap_queue:
+            w.do(("D",))
+        if w.framework.markets.markets.get(mids[1]) is None or w.framework.markets.markets[mids[1]].market_book is not None:
+            raise core.HarnessError("adopt: market 1 was not created by the order stream before its book")
+        while w.pending_books:
+            w.do(("B",))
+        seq = seq[1:]
     out = []
     counts = {"clause:C20.b": 0, "clause:C20.d": 0, "clause:C20.f": 0, "live_closures": 0, "live_removals": 0, "live_reopens": 0, "live_kept_under_an_hour": 0}
-    case = dict(live=[list(e) for e in seq])
+    case = dict(live=([["adopt", 1]] if adopt else []) + [list(e) for e in seq])
+    if adopt:
+        counts["live_adopted_runs"] = 1
     try:
         fw = w.framework
         s0, s1, s2, s3, s4 = w.strategies
@@ -461,9 +528,15 @@ def run(tier):
         rep.merge_counts(r["counts"])
         if r["outcome"]:
             rep.outcomes.add(r["outcome"])
+    fj = [((a,), wo) for a in range(len(FILTERS)) for wo in (False, True)] + [((a, b), True) for a in range(len(FILTERS)) for b in range(len(FILTERS)) if a < b]
+    for r in core.pmap(_filters_one, fj):
+        rep.add_violations(r["violations"])
+        rep.merge_counts(r["counts"])
+    rep.need("filtered_closures")
     # live mode
     depth = 6
     lj = [seq for n in range(1, depth + 1) for seq in itertools.product(LIVE_ALPHA, repeat=n) if any(e[0] == "close" for e in seq) and (n < depth or (seq[-1][0] == "close" and sum(1 for e in seq if e[0] == "tick") >= 1))]
+    lj += [(("adopt", 1),) + seq for n in range(1, 5) for seq in itertools.product(LIVE_ALPHA, repeat=n) if any(e[0] == "close" for e in seq)]
     for r in core.pmap(_live_one, lj):
         rep.add_violations(r["violations"])
         rep.merge_counts(r["counts"])
@@ -474,7 +547,7 @@ def run(tier):
         rep.merge_counts(r["counts"])
     rep.sample({"live": [list(e) for e in lj[len(lj) // 2]]})
     jobs = jobs + lj + rj
-    rep.need("closing_updates", "repeated_closes", "reopens", "episodes_with_orders", "unsubscribed_strategy_markets", "live_closures", "live_removals", "live_reopens", "live_kept_under_an_hour", "recorder_closures")
+    rep.need("closing_updates", "repeated_closes", "reopens", "episodes_with_orders", "unsubscribed_strategy_markets", "live_closures", "live_removals", "live_reopens", "live_kept_under_an_hour", "recorder_closures", "live_adopted_runs")
     rep.states = len(jobs)
     rep.transitions = len(jobs)
     rep.traces = len(jobs)
@@ -495,8 +568,11 @@ def run(tier):
 
 def replay(rep):
     c = rep["case"]
-    if "live" in c or "recorder" in c:
-        r = _live_one([tuple(e) for e in c["live"]]) if "live" in c else _recorder_one(tuple(c["recorder"]))
+    if "live" in c or "recorder" in c or "filters" in c:
+        if "filters" in c:
+            r = _filters_one((tuple(c["filters"][0]), c["filters"][1]))
+        else:
+            r = _live_one([tuple(e) for e in c["live"]]) if "live" in c else _recorder_one(tuple(c["recorder"]))
         for d in r["violations"]:
             print(d["key"], d["detail"])
         return 1 if r["violations"] else 0
